@@ -5,6 +5,14 @@ import json
 ALL = [f"C{i:02d}" for i in range(1, 20)]
 
 CHECKS = {
+    "C09": dict(
+        category="exploration", engine="E1+E5", design_ref="DESIGN.md 3/C09",
+        technique="bounded-exhaustive enumeration of meaning-preserving document rewrites at every application site, metamorphic oracle parse(rewrite(d)) == parse(d)",
+        text=("For every G-model model (7.4k quick / 170k thorough) and its default instance, each one-value deviation and the variant serialized under a user default namespace, every single "
+              "application site (thorough: every pair) of 20 rewrites is applied: prefix aliasing, xmlns hoisting and re-declaration, default namespace <-> prefix, attribute reordering, whitespace "
+              "in every gap of element-only content, comments / PIs in every gap and inside text, CDATA, character references, UTF-16/Latin-1/BOM re-encoding, surrounding whitespace on non-string "
+              "values, XInclude extraction of each child (path and base_url). Both handlers must return an object equal to the one parsed from the original."),
+        note="each rewritten document is first checked to have the same infoset by libxml2; one open known finding (native handler + XInclude + prefixed values)"),
     "C08": dict(
         category="model_checking", engine="E1+E5", design_ref="DESIGN.md 3/C08",
         technique="explicit event-sequence exploration of the shared writer state machine across three writers + bounded-exhaustive differential comparison of handlers over source kinds",
